@@ -4,6 +4,7 @@ import CdsVerif.Driver.SeqEval
 import CdsVerif.Driver.Replay
 import CdsVerif.Driver.Snapshot
 import CdsVerif.Driver.FCBatch
+import CdsVerif.Driver.CuckooEval
 import CdsVerif.Algo.Spin.Model
 import CdsVerif.Algo.Treiber.Model
 import CdsVerif.Algo.Elim.Model
@@ -24,10 +25,12 @@ import CdsVerif.Algo.HP.Replay
 import CdsVerif.Algo.DHP.Replay
 import CdsVerif.Algo.RCU.Model
 import CdsVerif.Algo.Michael.Model
+import CdsVerif.Algo.Michael.Snap
 import CdsVerif.Algo.SplitList.Model
 import CdsVerif.Algo.Feldman.Model
 import CdsVerif.Algo.SkipList.Abs
 import CdsVerif.Algo.Lazy.Model
+import CdsVerif.Algo.Lazy.Snap
 import CdsVerif.Algo.Iterable.Model
 import CdsVerif.Algo.Striped.Replay
 import CdsVerif.Algo.MSPQ.Model
@@ -67,31 +70,43 @@ partial def seqLoop (h : IO.FS.Stream) : IO Unit := do
 open CdsVerif.Machine in
 /-- tie A: replay every case of the stream against model `m` started in `init cfgLine`. -/
 partial def replayLoop {σ : Type} (h : IO.FS.Stream) (m : Model σ) (init : List String → σ)
-    (relevant : String → Bool) (invB : σ → Bool) (cur : Option (String × RState σ)) : IO Unit := do
+    (relevant : String → Bool) (invB : σ → Bool) (cur : Option (String × RState σ))
+    (snap : Option (σ → List String) := none) : IO Unit := do
   let line ← h.getLine
   if line.isEmpty then return ()
   match words line with
-  | "CASE" :: id :: _ => replayLoop h m init relevant invB (some (id, { st := init [] }))
+  | "CASE" :: id :: _ => replayLoop h m init relevant invB (some (id, { st := init [] })) snap
   | "#" :: rest =>
     -- the header comment carries the configuration (variant=… etc.): restart the model with it
     match cur with
     | some (id, r) =>
       if r.lineNo == 0 && rest.any (·.startsWith "family=") then
-        replayLoop h m init relevant invB (some (id, { st := init rest }))
-      else replayLoop h m init relevant invB cur
-    | none => replayLoop h m init relevant invB cur
+        replayLoop h m init relevant invB (some (id, { st := init rest })) snap
+      else replayLoop h m init relevant invB cur snap
+    | none => replayLoop h m init relevant invB cur snap
+  | "SNAP" :: toks =>
+    -- tie S on the machine side: the dump of the real object at the quiescent end of the case (printed by the client's
+    -- finish()) against the rendering of the final machine state (a reachable state: Props/C18Reach.lean)
+    match cur, snap with
+    | some (id, r), some f =>
+      if r.verdict.isNone then
+        let mine := f r.st
+        if mine == toks then IO.println s!"SNAPOK {id} {" ".intercalate mine}"
+        else IO.println s!"SNAPDIFF {id} impl=[{" ".intercalate toks}] model=[{" ".intercalate mine}]"
+      replayLoop h m init relevant invB cur snap
+    | _, _ => replayLoop h m init relevant invB cur snap
   | "END" :: _ =>
     match cur with
     | some (id, r) =>
       match r.verdict with
       | none => IO.println s!"OK {id} steps={r.steps} skipped={r.skipped}"
       | some v => IO.println s!"DIVERGE {id} {v}"
-      replayLoop h m init relevant invB none
-    | none => replayLoop h m init relevant invB none
+      replayLoop h m init relevant invB none snap
+    | none => replayLoop h m init relevant invB none snap
   | _ =>
     match cur with
-    | some (id, r) => replayLoop h m init relevant invB (some (id, replayLine m relevant invB r line))
-    | none => replayLoop h m init relevant invB none
+    | some (id, r) => replayLoop h m init relevant invB (some (id, replayLine m relevant invB r line)) snap
+    | none => replayLoop h m init relevant invB none snap
 
 def main (args : List String) : IO UInt32 := do
   let stdin ← IO.getStdin
@@ -101,6 +116,7 @@ def main (args : List String) : IO UInt32 := do
   | ["seqeval"] => seqLoop stdin; return 0
   | ["snapshot"] => snapLoop stdin; return 0
   | ["fcbatch"] => fcBatchLoop stdin; return 0
+  | ["cuckooeval"] => cuckooEvalLoop stdin; return 0
   | ["replay", "msqueue"] =>
     replayLoop stdin CdsVerif.Algo.MSQueue.model (fun _ => CdsVerif.Algo.MSQueue.init)
       (fun loc => loc == "head" || loc == "tail" || (loc.startsWith "n" && !(loc.any (· == '+')))) (fun _ => true) none
@@ -173,12 +189,14 @@ def main (args : List String) : IO UInt32 := do
     -- harness variant `imichael_hp_named` of the `list` client: only `head` and `n<digits>` are model locations
     replayLoop stdin CdsVerif.Algo.Michael.model (fun _ => CdsVerif.Algo.Michael.init)
       (fun loc => loc == "head" || (loc.startsWith "n" && loc.length > 1 && (loc.drop 1).all Char.isDigit)) (fun _ => true) none
+      (some CdsVerif.Algo.Michael.snapTokens)
     return 0
   | ["replay", "lazy"] =>
     -- harness variant `ilazy_hp_named` of the `list` client: model locations are `h`, `t`, `n<digits>` and their `.lock` words
     replayLoop stdin CdsVerif.Algo.Lazy.model (fun _ => CdsVerif.Algo.Lazy.init)
       (fun loc => let b := if loc.endsWith ".lock" then (loc.dropRight 5) else loc
                   b == "h" || b == "t" || (b.startsWith "n" && b.length > 1 && (b.drop 1).all Char.isDigit)) (fun _ => true) none
+      (some CdsVerif.Algo.Lazy.snapTokens)
     return 0
   | ["replay", "rcu"] =>
     -- initial state from the header words `flavour=gpi|gpb nthreads=<n> cap=<threshold> bufcap=<capacity()>`;
